@@ -52,6 +52,9 @@ type Config struct {
 	AtomicPoints bool
 	// ReverseBase uses descending thread id as the base order.
 	ReverseBase bool
+	// NeedTids records the thread of every alternative at every point
+	// (needed by the preemption cost model only).
+	NeedTids bool
 }
 
 // Point is one recorded choice.
@@ -171,6 +174,10 @@ type World struct {
 	live     sync.WaitGroup
 	panics   []PanicInfo
 	closed   map[uintptr]bool
+	enBuf    []transition
+	ordBuf   []*Thread
+	qBuf     []*Thread
+	needTids bool
 	keep     []reflect.Value // closed channels are kept alive: their address must not be reused while it is a key of closed
 	res      *Result
 	finished bool
@@ -226,6 +233,7 @@ func Run(body func(), prefix []int, widths []int, cfg Config) *Result {
 		cfg.Horizon = 1000 * time.Hour
 	}
 	world := &World{
+		trace:  make([]Point, 0, 512),
 		prefix: prefix,
 		widths: widths,
 		cfg:    cfg,
@@ -418,9 +426,11 @@ func (wd *World) schedule() {
 		pt := Point{Width: len(en), Choice: idx}
 		if len(en) > 1 {
 			pt.Pre = wd.last != nil && en[0].t == wd.last
-			pt.Tids = make([]int16, len(en))
-			for i, tr := range en {
-				pt.Tids[i] = int16(tr.t.id)
+			if wd.cfg.NeedTids || wd.cfg.Verbose {
+				pt.Tids = make([]int16, len(en))
+				for i, tr := range en {
+					pt.Tids[i] = int16(tr.t.id)
+				}
 			}
 		}
 		if wd.cfg.Verbose {
@@ -482,7 +492,7 @@ func (wd *World) fire(tr transition) {
 
 // order of threads: last running first, then ascending (or descending) id.
 func (wd *World) order() []*Thread {
-	out := make([]*Thread, 0, len(wd.threads))
+	out := wd.ordBuf[:0]
 	if wd.last != nil && !wd.last.done {
 		out = append(out, wd.last)
 	}
@@ -499,15 +509,16 @@ func (wd *World) order() []*Thread {
 			}
 		}
 	}
+	wd.ordBuf = out
 	return out
 }
 
 type rdvKey struct{ s, sc, r, rc int }
 
 func (wd *World) enabled() []transition {
-	var en []transition
+	en := wd.enBuf[:0]
 	var seen map[rdvKey]bool
-	var quiesce []*Thread
+	quiesce := wd.qBuf[:0]
 	for _, t := range wd.order() {
 		if !t.parked {
 			continue
@@ -601,6 +612,7 @@ func (wd *World) enabled() []transition {
 			en = append(en, transition{t: t})
 		}
 	}
+	wd.enBuf, wd.qBuf = en, quiesce
 	return en
 }
 
